@@ -3,7 +3,9 @@
      T <id> <variant f|d|m> <factor> <prec> xM xE yM yE rM rE
      S <id> <variant> <set> <realstruct> <detect> <sep> <lmax> <zero_roots> <prec> <n> <clusters> {xM xE yM yE rM rE inc attrs}*n
        <SM: 2n bits (radius test of inclusion.c, of modify.c)> <UN: 3n bits (touchunit(2n), in_unit, in_compl; used for variant m only)>
+       [FX=1: the tree has the allowance patch of this variant (f, d) applied: the unit-circle outcome of the repaired test is used]
    stdout: T -> <id> T=<real><imag><unit or ?> F=<unit after fixes/C08_munit_tangent.patch or ?>
+                     G=<unit of the repaired test: f, d after fixes/C08_{f,d}unit_allowance.patch; m as F>
            S -> <id> T=<7n> SD=<6n> DA=<n> INC=<n> ATT=<n> CNT=c0,c1,c2
    zarith is used for reading decimal integers only. *)
 module BZ = Z
@@ -42,16 +44,18 @@ let () =
         let ((a, b), c) = touch3 (variant_of v) (zs fac) (zs xm) (zs xe) (zs ym) (zs ye) (zs rm) (zs re) in
         let ob = function Some x -> cb x | None -> '?' in
         let c' = if v = "m" then touch_unit_m_fixed (zs fac) (zs xm) (zs xe) (zs ym) (zs ye) (zs rm) (zs re) else c in
-        Printf.printf "%s T=%c%c%c F=%c\n" id (cb a) (cb b) (ob c) (ob c')
+        let g = touch_unit_fixed (variant_of v) (zs fac) (zs xm) (zs xe) (zs ym) (zs ye) (zs rm) (zs re) in
+        Printf.printf "%s T=%c%c%c F=%c G=%c\n" id (cb a) (cb b) (ob c) (ob c') (ob g)
       | "S" :: id :: v :: st :: rs :: det :: _sep :: _lmax :: zr :: _prec :: ns :: cl :: rest ->
         let n = int_of_string ns in
         let toks = Array.of_list rest in
         let sm = toks.(8 * n) and un = toks.(8 * n + 1) in
         let var = variant_of v in
+        let fx = Array.length toks > 8 * n + 2 && toks.(8 * n + 2) = "FX=1" in
         let nz = z_of_string ns in
         let obs = Array.init n (fun i ->
             let t k = toks.(8 * i + k) in
-            root_obs var nz (z_of_string (t 0)) (z_of_string (t 1)) (z_of_string (t 2)) (z_of_string (t 3))
+            root_obs_gen fx var nz (z_of_string (t 0)) (z_of_string (t 1)) (z_of_string (t 2)) (z_of_string (t 3))
               (z_of_string (t 4)) (z_of_string (t 5)) (bit un (3 * i)) (bit un (3 * i + 1)) (bit un (3 * i + 2)) false) in
         let roots = Array.init n (fun i ->
             mk_root obs.(i) (bit sm (2 * i)) (bit sm (2 * i + 1))
